@@ -229,6 +229,10 @@ func runJob(b *builder, prop, tier string, j job, idx int, seed int64, deadline 
 	}
 	args := []string{"-prop", prop, "-tier", tier, "-out", b.scratch, "-seed", strconv.FormatInt(seed, 10)}
 	if deadline > 0 {
+		// the worker stops exploring (exhaustive=false) well before the watchdog would kill it
+		if jd := time.Now().Unix() + int64(timeout) - 90; jd < deadline {
+			deadline = jd
+		}
 		args = append(args, "-deadline", strconv.FormatInt(deadline, 10))
 	}
 	args = append(args, j.Args...)
@@ -321,9 +325,13 @@ func tail(s string, n int) string {
 }
 
 func writeReplay(prop string, v violation) string {
-	os.MkdirAll(filepath.Join(verifDir, "replays"), 0o755)
+	dir := filepath.Join(verifDir, "replays")
+	if d := os.Getenv("VERIF_REPLAY_DIR"); d != "" {
+		dir = d // used when checks are run against deliberately broken trees
+	}
+	os.MkdirAll(dir, 0o755)
 	h := sha1.Sum(append([]byte(v.Sig), v.Replay...))
-	name := filepath.Join(verifDir, "replays", fmt.Sprintf("%s-%s.json", prop, hex.EncodeToString(h[:6])))
+	name := filepath.Join(dir, fmt.Sprintf("%s-%s.json", prop, hex.EncodeToString(h[:6])))
 	data, _ := json.MarshalIndent(map[string]any{"property": prop, "signature": v.Sig, "what": v.What, "replay": v.Replay}, "", " ")
 	os.WriteFile(name, data, 0o644)
 	return name
